@@ -9,7 +9,7 @@
 (* strategy.  Complete documents (stack empty) are emitted with and        *)
 (* without a final line break.                                             *)
 (***************************************************************************)
-EXTENDS GenBase
+EXTENDS GenBase, FiniteSets
 
 CONSTANTS
   L,          \* maximal number of lines
@@ -22,6 +22,8 @@ CONSTANTS
   WsLens,     \* set of lengths of whitespace-only lines (in characters of Unit[1]); {} = none
   Blank,      \* TRUE: empty lines allowed
   Suffix,     \* text appended to every code line (e.g. a multi-byte character), <<>> for none
+  MaxCode,    \* maximal number of code lines
+  EmptyDefault, \* TRUE: default-strategy elements are closed right after they are opened (two-line blocks)
   MbCode,     \* TRUE: code lines consist of multi-byte characters only (pairwise distinct per line)
   CodeA, CodeB, \* text between 'c' and the line number / between the number and ';' (interior blanks), <<>> for none
   PastTo, FutureTo, \* `to` values for T / F
@@ -52,7 +54,12 @@ Close    == /\ stack # <<>>
             /\ stack' = SubSeq(stack, 1, Len(stack) - 1)
             /\ UNCHANGED nel
 
-Next == Len(lines) < L /\ (AddCode \/ AddBlank \/ AddWs \/ Open \/ Close)
+CodeCount == Cardinality({i \in 1..Len(lines) : lines[i].k = "code"})
+InDefault == stack # <<>> /\ ~stack[Len(stack)][1][2]
+
+Next == /\ Len(lines) < L
+        /\ IF EmptyDefault /\ InDefault THEN Close
+           ELSE (CodeCount < MaxCode /\ AddCode) \/ AddBlank \/ AddWs \/ Open \/ Close
 
 \* a document can only be completed if the open elements can still be closed
 Feasible == Len(lines) + Len(stack) <= L
